@@ -1560,6 +1560,14 @@ func (dsc *dataStoreCommand) lmove(srcKeyName, destKeyName string, srcLeft, dest
 		return
 	}
 
+	if srcList == destList && srcList.count == 1 {
+		// rotating a one-element list leaves it as it is; popping first would
+		// remove the key (and its expiry) before the element is pushed back
+		uk.elements = 1
+		output.data = respBulkString(srcList.head.element)
+		return
+	}
+
 	// remove the item from the source list
 	var item *listItem
 	if srcLeft {
